@@ -157,4 +157,176 @@ example : (stepObj (stepObj (stepObj (stepObj ⟨[⟨[0, 0], 3, 5, 0⟩, ⟨[0],
 example : (stepObj (stepObj ⟨[⟨[0, 0], 3, 5, 0⟩, ⟨[0], 1, 0, 0⟩], some 0⟩ (.reloadObj 1)).1 .getMsg).2 = some "1" := by
   decide
 
+/-! ### no false negatives over arbitrary object-level histories -/
+
+/-- the items inserted so far into each object (parallel to `objs`): an insertion goes to the object pointed at -/
+def insStep (s : State) (ins : List (List Bytes)) : BloomObj.Op → List (List Bytes)
+  | .base (.reload _) => ins ++ [[]]
+  | .base (.add d) => match s.cur with | some k => ins.modify k (d :: ·) | none => ins
+  | .base (.addHash d) => match s.cur with | some k => ins.modify k (d :: ·) | none => ins
+  | .base (.addOutPoint h i) => match s.cur with | some k => ins.modify k (outPointBytes h i :: ·) | none => ins
+  | _ => ins
+
+def runObj : State → List (List Bytes) → List BloomObj.Op → State × List (List Bytes)
+  | s, ins, [] => (s, ins)
+  | s, ins, op :: ops => runObj (stepObj s op).1 (insStep s ins op) ops
+
+/-- every object reports everything that was ever inserted into it, and stays within the wire limit -/
+def ObjInv (s : State) (ins : List (List Bytes)) : Prop :=
+  State.WF s ∧ ins.length = s.objs.length ∧
+  ∀ k (hk : k < s.objs.length), s.objs[k].bits.length ≤ 36000 ∧ ∀ x ∈ ins.getD k [], matchesMsg s.objs[k] x = true
+
+private theorem matches_addMsg_self (m : Msg) (x : Bytes) (h : m.bits.length ≤ 36000) :
+    matchesMsg (addMsg m x) x = true := by
+  simpa [Bloom.Matches, Bloom.add] using bloom_add_matches m x h
+
+private theorem matches_addMsg_mono (m : Msg) (x y : Bytes) (h : matchesMsg m y = true) :
+    matchesMsg (addMsg m x) y = true := by
+  simpa [Bloom.Matches, Bloom.add] using bloom_add_mono (some m) x y (by simpa [Bloom.Matches] using h)
+
+private theorem stepObj_readonly (s : State) (op : Bloom.Op) (h : State.WF s)
+    (hop : (∃ d, op = .query d) ∨ (∃ d i, op = .queryOutPoint d i) ∨ op = .isLoaded) :
+    (stepObj s (.base op)).1 = s := by
+  rcases hop with ⟨d, rfl⟩ | ⟨d, i, rfl⟩ | rfl <;>
+  · simp only [stepObj, Bloom.step]
+    cases hc : s.cur with
+    | none => cases s; simp_all [view]
+    | some k =>
+      have hk := h k hc
+      cases s
+      simp_all [view, List.getElem?_eq_getElem hk]
+
+private theorem getD_modify_self' (ins : List (List Bytes)) (k : Nat) (d : Bytes) (hk : k < ins.length) :
+    (ins.modify k (d :: ·)).getD k [] = d :: ins.getD k [] := by
+  simp [List.getD_eq_getElem?_getD, List.getElem?_modify, List.getElem?_eq_getElem hk]
+
+private theorem getD_modify_ne' (ins : List (List Bytes)) (k j : Nat) (d : Bytes) (h : k ≠ j) :
+    (ins.modify k (d :: ·)).getD j [] = ins.getD j [] := by
+  simp only [List.getD_eq_getElem?_getD, List.getElem?_modify]
+  cases ins[j]? <;> simp [h]
+
+private theorem inv_insert (s : State) (ins : List (List Bytes)) (h : ObjInv s ins) (k : Nat) (hc : s.cur = some k)
+    (d : Bytes) :
+    ObjInv ⟨s.objs.set k (addMsg (s.objs[k]'(h.1 k hc)) d), some k⟩ (ins.modify k (d :: ·)) := by
+  obtain ⟨wf, hl, hall⟩ := h
+  have hk := wf k hc
+  refine ⟨?_, by simp [hl], ?_⟩
+  · intro j hj; cases hj; simpa using hk
+  · intro j hj
+    have hj' : j < s.objs.length := by simpa using hj
+    by_cases e : j = k
+    · subst e
+      have := hall j hj'
+      simp only [List.getElem_set_self, Bch.Proofs.Bloom.addMsg_length]
+      refine ⟨this.1, ?_⟩
+      intro x hx
+      rw [getD_modify_self' _ _ _ (hl ▸ hj'), List.mem_cons] at hx
+      rcases hx with rfl | hx
+      · exact matches_addMsg_self _ _ this.1
+      · exact matches_addMsg_mono _ _ _ (this.2 x hx)
+    · have := hall j hj'
+      have e' : k ≠ j := fun h => e h.symm
+      simp only [List.getElem_set_ne e']
+      refine ⟨this.1, ?_⟩
+      intro x hx
+      rw [getD_modify_ne' _ _ _ _ e'] at hx
+      exact this.2 x hx
+
+/-- **the invariant is preserved by every operation**, for every new message within the wire limit -/
+theorem C09_obj_inv_step (s : State) (ins : List (List Bytes)) (op : BloomObj.Op) (h : ObjInv s ins)
+    (hm : ∀ m, op = .base (.reload m) → m.bits.length ≤ 36000) :
+    ObjInv (stepObj s op).1 (insStep s ins op) := by
+  have wf' := C09_obj_wf_step s op h.1
+  cases op with
+  | getMsg => exact h
+  | reloadObj j =>
+    refine ⟨wf', ?_, ?_⟩ <;> simp only [stepObj, insStep] <;> split <;> first | exact h.2.1 | exact h.2.2
+  | base b =>
+    cases b with
+    | reload m =>
+      obtain ⟨wf, hl, hall⟩ := h
+      refine ⟨wf', by simp [stepObj, insStep, hl], ?_⟩
+      intro k hk
+      simp only [stepObj, List.length_append, List.length_singleton] at hk
+      by_cases e : k < s.objs.length
+      · have := hall k e
+        simp only [stepObj, insStep, List.getElem_append_left e]
+        refine ⟨this.1, ?_⟩
+        intro x hx
+        apply this.2 x
+        have : k < ins.length := hl ▸ e
+        simpa [List.getD_eq_getElem?_getD, List.getElem?_append_left this] using hx
+      · have e2 : k = s.objs.length := by omega
+        subst e2
+        simp only [stepObj, insStep, List.getElem_concat_length]
+        refine ⟨hm m rfl, ?_⟩
+        intro x hx
+        simp [List.getD_eq_getElem?_getD, ← hl] at hx
+    | unload => exact ⟨wf', h.2.1, h.2.2⟩
+    | add d =>
+      cases hc : s.cur with
+      | none =>
+        have : (stepObj s (.base (.add d))).1 = s := by cases s; simp_all [stepObj, Bloom.step, view, Bloom.add]
+        rw [this]; simpa [insStep, hc] using h
+      | some k =>
+        have hk := h.1 k hc
+        have := inv_insert s ins h k hc d
+        simpa [stepObj, insStep, Bloom.step, view, hc, Bloom.add, List.getElem?_eq_getElem hk] using this
+    | addHash d =>
+      cases hc : s.cur with
+      | none =>
+        have : (stepObj s (.base (.addHash d))).1 = s := by cases s; simp_all [stepObj, Bloom.step, view, Bloom.add]
+        rw [this]; simpa [insStep, hc] using h
+      | some k =>
+        have hk := h.1 k hc
+        have := inv_insert s ins h k hc d
+        simpa [stepObj, insStep, Bloom.step, view, hc, Bloom.add, List.getElem?_eq_getElem hk] using this
+    | addOutPoint d i =>
+      cases hc : s.cur with
+      | none =>
+        have : (stepObj s (.base (.addOutPoint d i))).1 = s := by
+          cases s; simp_all [stepObj, Bloom.step, view, Bloom.add, Bloom.addOutPoint]
+        rw [this]; simpa [insStep, hc] using h
+      | some k =>
+        have hk := h.1 k hc
+        have := inv_insert s ins h k hc (outPointBytes d i)
+        simpa [stepObj, insStep, Bloom.step, view, hc, Bloom.add, Bloom.addOutPoint, List.getElem?_eq_getElem hk] using this
+    | query d => rw [stepObj_readonly s _ h.1 (.inl ⟨d, rfl⟩)]; exact h
+    | queryOutPoint d i => rw [stepObj_readonly s _ h.1 (.inr (.inl ⟨d, i, rfl⟩))]; exact h
+    | isLoaded => rw [stepObj_readonly s _ h.1 (.inr (.inr rfl))]; exact h
+
+/-- **no false negatives over every object-level history.**  Start with any message objects within the wire limit
+    and nothing recorded as inserted; after *any* sequence of insertions, queries, `Reload`s of new messages (within
+    the limit) or of earlier objects, `Unload`, `IsLoaded`, `MsgFilterLoad`, every object reports every item that was
+    ever inserted while it was loaded — whenever it is loaded again, `Matches` answers true (`C09_obj_view_step`:
+    the answer of a query is the answer of the object pointed at). -/
+theorem C09_obj_no_false_negatives (s : State) (ops : List BloomObj.Op) (h0 : State.WF s)
+    (hlim : ∀ k (hk : k < s.objs.length), s.objs[k].bits.length ≤ 36000)
+    (hops : ∀ m, BloomObj.Op.base (.reload m) ∈ ops → m.bits.length ≤ 36000) :
+    let r := runObj s (s.objs.map fun _ => []) ops
+    ∀ k (hk : k < r.1.objs.length), ∀ x ∈ r.2.getD k [], matchesMsg r.1.objs[k] x = true := by
+  have key : ∀ (ops : List BloomObj.Op) (s : State) (ins : List (List Bytes)), ObjInv s ins →
+      (∀ m, BloomObj.Op.base (.reload m) ∈ ops → m.bits.length ≤ 36000) → ObjInv (runObj s ins ops).1 (runObj s ins ops).2 := by
+    intro ops
+    induction ops with
+    | nil => intro s ins h _; exact h
+    | cons op rest ih =>
+      intro s ins h hm
+      simp only [runObj]
+      exact ih _ _ (C09_obj_inv_step s ins op h (fun m e => hm m (e ▸ List.mem_cons_self ..)))
+        (fun m hmem => hm m (List.mem_cons_of_mem _ hmem))
+  have h1 : ObjInv s (s.objs.map fun _ => []) := by
+    refine ⟨h0, by simp, fun k hk => ⟨hlim k hk, ?_⟩⟩
+    intro x hx
+    simp [List.getD_eq_getElem?_getD, List.getElem?_map, List.getElem?_eq_getElem hk] at hx
+  intro r k hk x hx
+  exact ((key ops s _ h1 hops).2.2 k hk).2 x hx
+
+-- non-vacuity: a history with two objects; object 0 is loaded again and still holds what was inserted into it
+example :
+    let s0 : State := ⟨[⟨[0, 0], 3, 5, 0⟩], some 0⟩
+    let ops : List BloomObj.Op := [.base (.add [1, 2, 3]), .base (.reload ⟨[0], 1, 0, 0⟩), .base (.add [9]), .reloadObj 0]
+    (runObj s0 [[]] ops).2 = [[[1, 2, 3]], [[9]]] ∧ (runObj s0 [[]] ops).1.cur = some 0 ∧
+    (stepObj (runObj s0 [[]] ops).1 (.base (.query [1, 2, 3]))).2 = some "1" := by decide
+
 end Bch.Props.C09
